@@ -226,10 +226,10 @@ func runReplayTest(repo, pkgDir, src string) (string, bool) {
 	cmd.Env = goEnv()
 	b, _ := cmd.CombinedOutput()
 	out := string(b)
-	if len(out) > 4000 {
-		out = out[:4000] + "\n...[truncated]"
-	}
 	failed := strings.Contains(out, "--- FAIL: TestGovcReplay")
+	if len(out) > 4000 {
+		out = out[:2000] + "\n...[truncated]...\n" + out[len(out)-2000:]
+	}
 	return out, failed
 }
 
